@@ -4,6 +4,8 @@ import Splipy.Lemmas.C05Knots
 import Splipy.Lemmas.C05Geometry
 import Splipy.Lemmas.Elevation
 import Splipy.Lemmas.SchoenbergWhitney
+import Splipy.Lemmas.C05Clamped
+import Splipy.Lemmas.C05Volume
 
 /-!
 # Property C05 — order elevation preserves geometry and continuity; lowering undoes it
@@ -388,6 +390,155 @@ theorem C05_lower_left_inverse_partial (o o' : Obj K) (tol : K) (b b' : Basis K)
       o''.rational = o'.rational ∧ o''.cps.shape = [n, nc] ∧
       ∀ j, j < n → ∀ c, c < nc → o''.cps.get (j * nc + c) = o.cps.get (j * nc + c) :=
   lowerOrder_pardim1 o o' tol b b' a ha pts2 n n' nc Ni2 hb hs hn hlow hg2 H_sw hsame
+
+/-- **C05, geometry for SURFACES on clamped continuous bases — FULL (no analytic hypothesis).**
+`o` is a well-formed object with two parametric directions (`C06.WF o 2`: two valid bases, control
+array `n_u × n_v × ncomp`, rational or not) whose bases are clamped continuous of orders `q_u+1`,
+`q_v+1` in the form of `C05_knots` (interior multiplicities `1 ≤ m ≤ q`), with distinct knots more
+than `2·(p'−1)·tol` apart (`p'` the NEW order of that direction).  For raise amounts `a_u, a_v ≥ 0`,
+not both `0`, with `q_u + a_u ≥ 1`, `q_v + a_v ≥ 1` (no order-1 result):
+`raise_order_implicit(a_u, a_v)` — which re-interpolates BOTH directions at once through the
+`tensordot` chain `N_old` (v, u) then `inv(N_new)` (v, u), also in a direction whose amount is `0` —
+and the public `SplineObject.raise_order(a_u, a_v)` SUCCEED, the public method returns the receiver,
+and the result `o'` is well formed with the elevated bases of `C05_knots` in both directions, the
+same rationality and number of components, and the SAME EVALUATED MAP: `C12.SameMap 2 o o'`, i.e.
+the defining tensor-product Cox–de Boor sum of every homogeneous component agrees at every
+parameter pair and every choice of sides.  Non-negative components (weights) stay non-negative.
+Proof: the four-step chain is the composition of two per-direction projections (`chain2_proj`), each
+of which is the one-directional problem (`H_incl` from `Lemmas/Elevation.lean`, `H_sw` from
+`Lemmas/SchoenbergWhitney.lean`, also at amount `0`); the result is the control net re-netted in
+direction 0 and then 1 (`raiseImplicit_surface_eq`), and re-netting keeps the map
+(`C12.sameMap_of_fibres`). -/
+theorem C05_geometry_clamped_surface (tol : K) (htol : 0 < tol)
+    (qu au : ℕ) (hqu : 1 ≤ qu + au) (x0u xlu : K) (umidu : List K) (mmidu : List ℕ)
+    (hlenu : umidu.length = mmidu.length) (hmu : ∀ j ∈ mmidu, 1 ≤ j ∧ j ≤ qu)
+    (hgapu : Separated (2 * ((qu + au : ℕ) : K) * tol) (clampedU x0u xlu umidu))
+    (qv av : ℕ) (hqv : 1 ≤ qv + av) (x0v xlv : K) (umidv : List K) (mmidv : List ℕ)
+    (hlenv : umidv.length = mmidv.length) (hmv : ∀ j ∈ mmidv, 1 ≤ j ∧ j ≤ qv)
+    (hgapv : Separated (2 * ((qv + av : ℕ) : K) * tol) (clampedU x0v xlv umidv))
+    (hnz : au ≠ 0 ∨ av ≠ 0)
+    (o : Obj K) (hw : C06.WF o 2)
+    (hb0 : o.basis 0 = openBasis (qu+1) (clampedU x0u xlu umidu) (clampedM (qu+1) mmidu))
+    (hb1 : o.basis 1 = openBasis (qv+1) (clampedU x0v xlv umidv) (clampedM (qv+1) mmidv)) :
+    ∃ o', o.raiseOrderImplicit tol [au, av] = .ok o'
+      ∧ o.raiseOrder tol [(au : Int), (av : Int)] none = .ok (.self, o')
+      ∧ C06.WF o' 2
+      ∧ o'.basis 0 = openBasis (qu+1+au) (clampedU x0u xlu umidu) (clampedM (qu+1+au) (mmidu.map (· + au)))
+      ∧ o'.basis 1 = openBasis (qv+1+av) (clampedU x0v xlv umidv) (clampedM (qv+1+av) (mmidv.map (· + av)))
+      ∧ C12.SameMap 2 o o' ∧ o'.ncomp = o.ncomp ∧ o'.rational = o.rational
+      ∧ (∀ i, i < o.ncomp →
+          (∀ a, a < (o.basis 0).numFunctions → ∀ j, j < (o.basis 1).numFunctions →
+            0 ≤ o.cps.get ((a * (o.basis 1).numFunctions + j) * o.ncomp + i)) →
+          ∀ k0, k0 < (o'.basis 0).numFunctions → ∀ k1, k1 < (o'.basis 1).numFunctions →
+            0 ≤ o'.cps.get ((k0 * (o'.basis 1).numFunctions + k1) * o.ncomp + i)) := by
+  obtain ⟨Eu, hEu0, hdu⟩ := dirOK_clamped tol htol qu au hqu x0u xlu umidu mmidu hlenu hmu hgapu
+  obtain ⟨Ev, hEv0, hdv⟩ := dirOK_clamped tol htol qv av hqv x0v xlv umidv mmidv hlenv hmv hgapv
+  rw [← hb0] at hdu
+  rw [← hb1] at hdv
+  obtain ⟨o', himp, hwf, h0, h1, hsm, hnc, hrat, hent⟩ := raiseImplicit_surface o tol hw au av _ _ Eu Ev hdu hdv
+  refine ⟨o', himp, ?_, hwf, h0, h1, hsm, hnc, hrat, ?_⟩
+  · have hpd : o.pardim = 2 := by rw [Obj.pardim, shape_of_wf2 hw]; rfl
+    have hfacu : tol ≤ 2 * ((qu + au : ℕ) : K) * tol := by
+      have h1 : (1 : K) ≤ ((qu + au : ℕ) : K) := by exact_mod_cast hqu
+      nlinarith
+    have hguard : Obj.raiseGuard tol o.bases.toList = .ok true := by
+      rw [bases_of_wf2 hw, hb0]
+      exact raiseGuard_clamped tol htol (qu+1) (by omega) x0u xlu umidu mmidu hlenu
+        (separated_mono hfacu hgapu) (fun j hj => (hmu j hj).1) _
+    apply raiseOrder_of_implicit o tol _ none [(au : Int), (av : Int)] o' (by simp [Obj.normRaises]) ?_ ?_ hguard
+      (by simpa using himp)
+    · intro r hr; simp at hr; rcases hr with rfl | rfl <;> omega
+    · rcases hnz with h | h
+      · exact ⟨(au : Int), by simp, by omega⟩
+      · exact ⟨(av : Int), by simp, by omega⟩
+  · intro i hi hpos k0 hk0 k1 hk1
+    rw [h0] at hk0
+    rw [h1] at hk1 ⊢
+    rw [hent k0 hk0 k1 hk1 i hi]
+    apply Finset.sum_nonneg
+    intro a ha
+    apply mul_nonneg _ (hEu0 a k0)
+    apply Finset.sum_nonneg
+    intro j hj
+    exact mul_nonneg (hpos a (Finset.mem_range.mp ha) j (Finset.mem_range.mp hj)) (hEv0 j k1)
+
+/-- **C05, geometry for VOLUMES on clamped continuous bases — FULL (no analytic hypothesis).**
+The three-directional analogue of `C05_geometry_clamped_surface`: `o` well formed with three
+parametric directions, every basis clamped continuous (form of `C05_knots`, interior multiplicities
+`1 ≤ m ≤ q`, distinct knots more than `2·(p'−1)·tol` apart with `p'` the new order of the direction),
+raise amounts `a_u, a_v, a_w ≥ 0` not all `0`, no order-1 result.  `raise_order_implicit` (six
+`tensordot` steps) and the public `raise_order(a_u, a_v, a_w)` succeed, the public method returns the
+receiver, the result is well formed with the elevated bases, same rationality and components, and
+`C12.SameMap 3 o o'`: the defining tensor-product sum of every homogeneous component agrees at every
+parameter triple and every choice of sides.  Non-negative components stay non-negative. -/
+theorem C05_geometry_clamped_volume (tol : K) (htol : 0 < tol)
+    (qu au : ℕ) (hqu : 1 ≤ qu + au) (x0u xlu : K) (umidu : List K) (mmidu : List ℕ)
+    (hlenu : umidu.length = mmidu.length) (hmu : ∀ j ∈ mmidu, 1 ≤ j ∧ j ≤ qu)
+    (hgapu : Separated (2 * ((qu + au : ℕ) : K) * tol) (clampedU x0u xlu umidu))
+    (qv av : ℕ) (hqv : 1 ≤ qv + av) (x0v xlv : K) (umidv : List K) (mmidv : List ℕ)
+    (hlenv : umidv.length = mmidv.length) (hmv : ∀ j ∈ mmidv, 1 ≤ j ∧ j ≤ qv)
+    (hgapv : Separated (2 * ((qv + av : ℕ) : K) * tol) (clampedU x0v xlv umidv))
+    (qw aw : ℕ) (hqw : 1 ≤ qw + aw) (x0w xlw : K) (umidw : List K) (mmidw : List ℕ)
+    (hlenw : umidw.length = mmidw.length) (hmw : ∀ j ∈ mmidw, 1 ≤ j ∧ j ≤ qw)
+    (hgapw : Separated (2 * ((qw + aw : ℕ) : K) * tol) (clampedU x0w xlw umidw))
+    (hnz : au ≠ 0 ∨ av ≠ 0 ∨ aw ≠ 0)
+    (o : Obj K) (hw : C06.WF o 3)
+    (hb0 : o.basis 0 = openBasis (qu+1) (clampedU x0u xlu umidu) (clampedM (qu+1) mmidu))
+    (hb1 : o.basis 1 = openBasis (qv+1) (clampedU x0v xlv umidv) (clampedM (qv+1) mmidv))
+    (hb2 : o.basis 2 = openBasis (qw+1) (clampedU x0w xlw umidw) (clampedM (qw+1) mmidw)) :
+    ∃ o', o.raiseOrderImplicit tol [au, av, aw] = .ok o'
+      ∧ o.raiseOrder tol [(au : Int), (av : Int), (aw : Int)] none = .ok (.self, o')
+      ∧ C06.WF o' 3
+      ∧ o'.basis 0 = openBasis (qu+1+au) (clampedU x0u xlu umidu) (clampedM (qu+1+au) (mmidu.map (· + au)))
+      ∧ o'.basis 1 = openBasis (qv+1+av) (clampedU x0v xlv umidv) (clampedM (qv+1+av) (mmidv.map (· + av)))
+      ∧ o'.basis 2 = openBasis (qw+1+aw) (clampedU x0w xlw umidw) (clampedM (qw+1+aw) (mmidw.map (· + aw)))
+      ∧ C12.SameMap 3 o o' ∧ o'.ncomp = o.ncomp ∧ o'.rational = o.rational
+      ∧ (∀ i, i < o.ncomp →
+          (∀ a0, a0 < (o.basis 0).numFunctions → ∀ a1, a1 < (o.basis 1).numFunctions →
+            ∀ j, j < (o.basis 2).numFunctions →
+            0 ≤ o.cps.entry4 (o.basis 1).numFunctions (o.basis 2).numFunctions o.ncomp a0 a1 j i) →
+          ∀ k0, k0 < (o'.basis 0).numFunctions → ∀ k1, k1 < (o'.basis 1).numFunctions →
+            ∀ k2, k2 < (o'.basis 2).numFunctions →
+            0 ≤ o'.cps.entry4 (o'.basis 1).numFunctions (o'.basis 2).numFunctions o.ncomp k0 k1 k2 i) := by
+  obtain ⟨Eu, hEu0, hdu⟩ := dirOK_clamped tol htol qu au hqu x0u xlu umidu mmidu hlenu hmu hgapu
+  obtain ⟨Ev, hEv0, hdv⟩ := dirOK_clamped tol htol qv av hqv x0v xlv umidv mmidv hlenv hmv hgapv
+  obtain ⟨Ew, hEw0, hdw⟩ := dirOK_clamped tol htol qw aw hqw x0w xlw umidw mmidw hlenw hmw hgapw
+  rw [← hb0] at hdu
+  rw [← hb1] at hdv
+  rw [← hb2] at hdw
+  obtain ⟨o', himp, hwf, h0, h1, h2, hsm, hnc, hrat, hent⟩ :=
+    raiseImplicit_volume o tol hw au av aw _ _ _ Eu Ev Ew hdu hdv hdw
+  refine ⟨o', himp, ?_, hwf, h0, h1, h2, hsm, hnc, hrat, ?_⟩
+  · have hpd : o.pardim = 3 := by rw [Obj.pardim, shape_of_wf3 hw]; rfl
+    have hfacu : tol ≤ 2 * ((qu + au : ℕ) : K) * tol := by
+      have h1 : (1 : K) ≤ ((qu + au : ℕ) : K) := by exact_mod_cast hqu
+      nlinarith
+    have hguard : Obj.raiseGuard tol o.bases.toList = .ok true := by
+      rw [bases_of_wf3 hw, hb0]
+      exact raiseGuard_clamped tol htol (qu+1) (by omega) x0u xlu umidu mmidu hlenu
+        (separated_mono hfacu hgapu) (fun j hj => (hmu j hj).1) _
+    apply raiseOrder_of_implicit o tol _ none [(au : Int), (av : Int), (aw : Int)] o' (by simp [Obj.normRaises])
+      ?_ ?_ hguard (by simpa using himp)
+    · intro r hr; simp at hr; rcases hr with rfl | rfl | rfl <;> omega
+    · rcases hnz with h | h | h
+      · exact ⟨(au : Int), by simp, by omega⟩
+      · exact ⟨(av : Int), by simp, by omega⟩
+      · exact ⟨(aw : Int), by simp, by omega⟩
+  · intro i hi hpos k0 hk0 k1 hk1 k2 hk2
+    rw [h0] at hk0
+    rw [h1] at hk1 ⊢
+    rw [h2] at hk2 ⊢
+    rw [hent k0 hk0 k1 hk1 k2 hk2 i hi]
+    apply Finset.sum_nonneg
+    intro a0 ha0
+    apply mul_nonneg _ (hEu0 a0 k0)
+    apply Finset.sum_nonneg
+    intro a1 ha1
+    apply mul_nonneg _ (hEv0 a1 k1)
+    apply Finset.sum_nonneg
+    intro j hj
+    exact mul_nonneg (hpos a0 (Finset.mem_range.mp ha0) a1 (Finset.mem_range.mp ha1) j (Finset.mem_range.mp hj))
+      (hEw0 j k2)
 
 omit [IsStrictOrderedRing K] in
 /-- **C05, API contract of `SplineObject.raise_order` / `set_order`** (any pardim).
